@@ -114,6 +114,8 @@ var (
 	ErrUserCacheDir   = errors.New("fscache: could not determine user cache dir")
 	ErrMissingAppName = errors.New("fscache: appname query parameter is required")
 	ErrCreateCacheDir = errors.New("fscache: could not create cache dir")
+	// ErrUnknownEncryption is returned for an encrypt parameter other than "on", "aesgcm" or "off".
+	ErrUnknownEncryption = errors.New("fscache: unknown value of the encrypt parameter")
 )
 
 type Error struct {
@@ -235,9 +237,15 @@ func fromURL(u *url.URL) (*fsCache, error) {
 	if v := u.Query().Get("timeout"); v != "" {
 		opts = append(opts, WithTimeout(parseTimeout(v)))
 	}
-	if encrypt := u.Query().Get("encrypt"); encrypt == "on" || encrypt == "aesgcm" {
+	switch encrypt := u.Query().Get("encrypt"); encrypt {
+	case "on", "aesgcm":
 		key := cmp.Or(u.Query().Get("encrypt_key"), os.Getenv("FSCACHE_ENCRYPT_KEY"))
 		opts = append(opts, WithEncryption(key))
+	case "", "off":
+	default:
+		// A value that was meant to switch encryption on ("ON", "true", "aes-gcm", ...)
+		// must not silently leave the cache unencrypted.
+		return nil, fmt.Errorf("%w: %q", ErrUnknownEncryption, encrypt)
 	}
 	if updateMTime := u.Query().Get("update_mtime"); updateMTime == "on" {
 		opts = append(opts, WithUpdateMTime(true))
